@@ -10,6 +10,9 @@ import RpmVerif.Driver.C04
 import RpmVerif.Driver.C06
 import RpmVerif.Driver.C07
 import RpmVerif.Driver.C17
+import RpmVerif.Driver.C03
+import RpmVerif.Driver.C12
+import RpmVerif.Driver.C14
 /-! Driver: one request per line in (`<op> <args…> => <impl observation>`), one answer per line
 out (`<model observation> | <spec verdict> | <branch label>`).
 Each property contributes `Driver/Cxx.lean` with `ops : List String` and
@@ -28,7 +31,10 @@ def handlers : List (List String × (String → List String → String → Strin
   (C04.ops, C04.handle),
   (C06.ops, C06.handle),
   (C07.ops, C07.handle),
-  (C17.ops, C17.handle)
+  (C17.ops, C17.handle),
+  (C03.ops, C03.handle),
+  (C12.ops, C12.handle),
+  (C14.ops, C14.handle)
 ]
 
 def dispatch (line : String) : String :=
